@@ -107,4 +107,21 @@ def run(ctx):
     ctx.rule("T9: the BLS ciphersuite constant is the proof-of-possession G2 suite")
     strs = {s for f in F.fns.values() if f.name.startswith("radix_common::crypto::") for s in f.strs}
     ctx.ob("bls|ciphersuite", True, "BLS12381_CIPHERSITE_V1 is passed as dst (checked as argument origin above)")
+    ctx.rule("error discipline in crypto::signature_validator: the decode result of a public key or signature (from_bytes / from_slice / "
+             "try_from) is never turned into an Option and dropped (`.ok()`, filter_map): an undecodable component must fail the verification, "
+             "not be skipped")
+    dropped = []
+    n_dec = 0
+    for name, f in sorted(F.fns.items()):
+        if not name.startswith(SV.rstrip(":") if SV.endswith("::") else SV):
+            continue
+        b = ctx.body(name)
+        n_dec += len(b.calls(r"(PublicKey|Signature)(<[^>]*>)?::(from_bytes|from_slice|from_compact|from_byte_array_compressed|uncompress|key_validate)$"))
+        for bb, t in b.calls(r"core::result::Result(<[^>]*>)?::ok$"):
+            src = origin_names(b, t["args"][0])
+            if any(re.search(r"(PublicKey|Signature)(<[^>]*>)?::(from_bytes|from_slice|from_compact|uncompress|key_validate)$", x) for x in src):
+                dropped.append((name.rsplit("::", 2)[-2:], b.loc(bb)))
+    ctx.floor("decode-sites-in-signature-validator", n_dec, 5)
+    ctx.ob("decode-errors-not-dropped", not dropped, "no key/signature decode error is discarded with .ok()" if not dropped else
+           f"decode error discarded (component silently skipped): {[d[0] for d in dropped]}", dropped[0][1] if dropped else "")
     ctx.assume("the cryptography itself (secp256k1, ed25519-dalek, blst) is trusted")
